@@ -38,7 +38,7 @@ def make_jobs(ctx, files, root, deep=False):
             jobs.append(dict(src=f, rel=os.path.relpath(f, root), subs=None, seed=0, times='all',
                              skips=64 if th else 16, addr_stride=1, tok_stride=1))
     plan = [('directed15', 2 if th else 1), ('directed-neg2', 2 if th else 1), ('first-rows', 6 if th else 2),
-            ('layout', 8 if th else 3), ('random', 38 if th else 10)]
+            ('layout', 8 if th else 3), ('random', 70 if th else 10)]
     for f in files:
         rel = os.path.relpath(f, root)
         for mode, n in plan:
@@ -138,8 +138,8 @@ def run(ctx):
     if exe:
         cnt = correspond(ctx, exe, results)
         ctx.log('correspondence cases:', cnt)
-    plain = [r for r in results if r.get('subs') is None]
-    var = [r for r in results if r.get('subs') is not None]
+    plain = [r for r in results if not r.get('variant')]
+    var = [r for r in results if r.get('variant') and r.get('subs')]
     ctx.oracle_cases('shipped-listings', len(plain), rows=sum(r['stats'].get('rows', 0) for r in plain),
                      cells=sum(r['stats'].get('cells', 0) for r in plain), tables=sum(r['stats'].get('tables', 0) for r in plain),
                      skip_runs=sum(r['stats'].get('skip_runs', 0) for r in plain),
@@ -149,6 +149,11 @@ def run(ctx):
     ctx.oracle_cases('value-perturbed-variants', len(var), rows=sum(r['stats'].get('rows', 0) for r in var),
                      opened=sum(r['stats'].get('opened', 0) for r in var), open_raises=sum(r['stats'].get('open_raises', 0) for r in var),
                      substitutions={k[4:]: v for k, v in tot.items() if k.startswith('sub_')})
+    ctx.oracle_cases('opens', tot.get('opened', 0) + tot.get('open_raises', 0))
+    ctx.oracle_cases('rows', tot.get('tables', 0))
+    ctx.oracle_cases('cells', tot.get('cells', 0))
+    ctx.oracle_cases('skip-tables', tot.get('skip_table_comparisons', 0))
+    ctx.oracle_cases('addressing', tot.get('addr_rows', 0) + tot.get('reverse_keys', 0))
     ctx.extra['input_distribution'] = {k: v for k, v in sorted(tot.items())}
     ctx.hyp_met['inferred_layout_is_true_layout'] = {'layout_lines_of_shipped_tables': tot.get('layout_lines', 0),
                                                      'side_condition_met': tot.get('layout_sidecond_met', 0)}
